@@ -19,6 +19,7 @@ def run(ctx, rep):
         rt.rule_field_correspondence(rep, crate, cfg)
         rt.rule_spanned(rep, crate, cfg)
         rt.rule_writers(rep, crate, cfg, ['source', 'is_prefix', 'token_start', 'token_end'], 'M-C14w')
+    rt.rule_witnesses(rep, ctx)
     rep.analysed['configs'] = [c for c, _ in cfgs]
     rep.trusted += ['rustc nightly MIR construction', 'engines/mirfacts']
     rep.assumptions += ['Into::into / Clone::clone of Extras are the user-provided conversions the property names',
